@@ -8,7 +8,7 @@ import (
 
 // C10 (structural part): frame + independence + closure for every exported operation.
 func C10(p *load.Prog, r *report.Report) {
-	r.Explanation = "Decides the structural necessary conditions of the history property, not the history behaviour itself: for each exported function (frame) writes reach only the receiver and fresh memory, (independence) pointer results are the receiver or fresh, constructors/Copy/Base/hash results are fresh, Element/Scalar/field.Element contain no pointer, slice, map, chan, func or interface (so Set/Copy/assignment cannot share storage), (closure) package-level state is never written after init. With the per-operation functional correctness decided under C01-C09, C13, C14 for every input value and representation, agreement of any finite history with the abstract model follows by induction on the history (prose, DESIGN.md section 3 C10); that induction step is not mechanised."
+	r.Explanation = "Decides the structural necessary conditions of the history property, not the history behaviour itself: for each exported function (frame) writes reach only the receiver and fresh memory, (independence) pointer results are the receiver or fresh, constructors/Copy/Base/hash results are fresh, Element/Scalar/field.Element contain no pointer, slice, map, chan, func or interface (so Set/Copy/assignment cannot share storage), (closure) package-level state is never written after init. With the per-operation functional correctness decided by C01-C09, C13, C14 for every input value and representation (their drivers are re-run here and their failures are failures of C10), agreement of any finite history with the abstract model follows by induction on the history (prose, DESIGN.md section 3 C10); that induction step is not mechanised."
 	r.NotDecided = []string{"functional correctness of each operation (decided by C01-C09, C13, C14, not here)", "the induction over histories (prose argument)"}
 	r.Trusted = []string{"go/ssa", "stdlib effect models", "induction over the history given per-operation correctness + frame"}
 	a := effects.Run(p)
@@ -33,6 +33,13 @@ func C10(p *load.Prog, r *report.Report) {
 		r.Check(ok, "C10.shape", construct, p.Pos(t.Pos()), "value-only type: assignment, Set and Copy cannot make two variables share storage", "type has a reference component ("+why+"): copies may share storage")
 	}
 	moduleHygiene(p, r, "C10")
+	// per-operation functional correctness: the hypotheses of the induction over histories
+	for _, d := range []struct {
+		id string
+		f  func(*load.Prog, *report.Report)
+	}{{"C01", C01}, {"C02", C02}, {"C03", C03}, {"C04", C04}, {"C05", C05}, {"C06", C06}, {"C07", C07}, {"C08", C08}, {"C09", C09}, {"C13", C13}, {"C14", C14}} {
+		inherit(p, r, "C10", d.id, d.f)
+	}
 	runFrameControls(r, "C10", map[string]bool{"argwrite": true, "ptrresult": true, "globalwrite": true})
 	apiSamples(p, a, r)
 }
